@@ -31,6 +31,18 @@ RULE = ("(a) unit correspondence: for generated configurations (base claims, alw
         "release point is idt_release_point(response type); access tokens of the authorization response are presented to userinfo and "
         "introspection and decoded when JWTs; the code is redeemed and the token endpoint's ID Token / access token judged by the "
         "id_token / userinfo / introspection / access_token rules. "
+        "(e) multi-valued user attributes: user records whose attributes are lists mixing permitted and non-permitted values, lists all / "
+        "none of whose elements are permitted, empty and one-element lists, lists of dicts, nested lists, dicts and scalars x "
+        "specifications null / essential only / value / values / essential+value(s) / value+values whose operands name one element, all "
+        "elements, no element, the list as a whole, a sub-list or nothing x the source of the specification (claims parameter userinfo / "
+        "id_token member, dict-form base_claims, dict-form always_add_claims, next to null specifications from scopes / list-form "
+        "always-add) - at the unit level (get_claims_from_request + get_user_claims against chk_claims and chk_mv: user_claims = the "
+        "shape-wise release_attr, values_within of the specification in force) and on real providers at every release point (ID Token "
+        "and access token of the authorization response for every ID-Token-bearing response type, ID Token / userinfo / introspection / "
+        "JWT access token after code redemption and after a refresh; release_tok / release_authz_idt as a set).  Oracle, value by value: "
+        "every value that left is the user's own and is permitted by one of the specifications of the sources that permit the attribute - "
+        "the released value as a whole equals a permitted value, or it is a list every element of which is permitted, or the source does "
+        "not restrict values. "
         "A case is non-trivial when at least one user attribute is released.")
 ASSUMPTIONS = ["the user database (users.json) is an arbitrary function user -> attributes", "JSON floats do not occur in the fixture data",
                "release point of an ID Token minted by the authorization endpoint (OIDC Core 5.4: the claims requested by scope values are "
@@ -40,7 +52,12 @@ ASSUMPTIONS = ["the user database (users.json) is an arbitrary function user -> 
                "rtype == {'id_token'} only): response type `id_token` alone -> id_token rules plus userinfo rules (what the userinfo endpoint "
                "may release for that scope, and the client's add_claims.always.userinfo / by_scope.userinfo entries when per-client claims "
                "are enabled for the ID Token handler); every other response type and every ID Token of the token endpoint -> id_token rules only",
-               "a response type is the SET of its words (order and repetition do not matter)"]
+               "a response type is the SET of its words (order and repetition do not matter)",
+               "value restrictions and multi-valued attributes: a specification with a `value` / `values` member permits exactly those values "
+               "(Python ==); when several sources name an attribute (base claims, always-add, scopes, claims parameter) the oracle takes the "
+               "most permissive reading (a value is permitted when any of them permits it); withholding an attribute is never a violation",
+               "a JWT access token omits empty-valued claims: attributes whose stored value is the empty list are left out of the model "
+               "comparison at the real release points (they are kept at the unit level and in the oracle)"]
 
 POINTS = ["userinfo", "id_token", "introspection", "access_token"]
 CLAIMS = ["name", "given_name", "family_name", "nickname", "email", "email_verified", "phone_number", "address", "birthdate", "sub", "nonexistent"]
@@ -1080,6 +1097,451 @@ def dead_token_release(ctx, rng, n):
     ctx.count("dead-token-release:histories", n + len(fixed))
 
 
+# ---------------------------------------------------------------------------------------------------------------------
+# Multi-valued user attributes x value restrictions.  The property bounds what is RELEASED value by value: for a claim
+# whose specification restricts values (`value` / `values`) only permitted values may leave the provider.
+# (attribute names that are no registered claim of any token profile: RFC 9068 types `roles` / `groups` / `entitlements`)
+MV_ATTRS = ["affil", "ent", "teams", "one", "posts", "lvl", "tags"]
+MV_USERS = {
+    "mia": {"name": "Mia Vale", "given_name": "Mia", "email": "mia@example.org", "nickname": "M",
+            "affil": ["staff@example.org", "member@example.org", "alum@example.org"], "ent": ["urn:x:admin", "urn:x:reader"],
+            "teams": [], "one": ["solo"], "posts": [{"r": "admin", "at": "hq"}, {"r": "reader", "at": "hq"}], "lvl": 3,
+            "tags": ["a", "b", "a"]},
+    "moe": {"name": "Moe Wall", "email": "moe@example.org", "nickname": "Mo",
+            "affil": ["member@example.org"], "ent": [], "teams": ["wheel", "ops"], "one": "solo",
+            "posts": [{"r": "reader", "at": "hq"}], "lvl": [1, 2], "tags": "a"},
+    "max": {"name": "Max Xu", "email": "max@example.org",
+            "affil": "member@example.org", "ent": ["urn:x:reader"], "teams": ["finance", "ops", "wheel"], "one": [],
+            "posts": {"r": "admin", "at": "hq"}, "tags": [["a", "b"], "c"]},
+}
+MV_SCOPE_MAP = {"openid": ["sub"], "email": ["email", "ent"], "profile": ["nickname", "name", "affil", "teams"], "phone": ["phone_number"],
+                "address": ["address", "posts"], "offline_access": []}
+
+
+def mv_shape(val):
+    if isinstance(val, list):
+        if not val:
+            return "empty-list"
+        if any(isinstance(x, dict) for x in val):
+            return "list-of-dicts"
+        if any(isinstance(x, list) for x in val):
+            return "nested-list"
+        return "one-element-list" if len(val) == 1 else "list"
+    return "dict" if isinstance(val, dict) else "scalar"
+
+
+def gen_spec_mv(rng, val):
+    """a claim specification for an attribute whose stored value is val: null / essential only / value / values /
+    essential + value(s) / value + values; the operands name one element, all elements, no element, the list as a
+    whole, a sub-list, nothing"""
+    elems = list(val) if isinstance(val, list) else [val]
+    elem = copy.deepcopy(rng.choice(elems)) if elems else "zz"
+    whole = copy.deepcopy(val)
+    form = rng.choice(["null", "essential", "value", "value", "values", "values", "values", "essential+value", "essential+values", "value+values"])
+    if form == "null":
+        return None, form
+    if form == "essential":
+        return {"essential": rng.random() < 0.5}, form
+
+    def one():
+        return copy.deepcopy(rng.choice([elem, elem, elem, whole, "other@example.org", elems[:1], [elem]]))
+
+    def many():
+        return copy.deepcopy(rng.choice([[elem, "zz"], [elem], list(elems), ["q", "zz"], [whole, "zz"], [], [elems[-1] if elems else "q", elem],
+                                         [elem, "zz"], [whole]]))
+    spec = {}
+    if form.startswith("essential"):
+        spec["essential"] = rng.random() < 0.7
+    if "values" in form and form.startswith("value+"):
+        spec["value"] = one()
+        spec["values"] = many()
+    elif "values" in form:
+        spec["values"] = many()
+    else:
+        spec["value"] = one()
+    return spec, form
+
+
+def spec_restricts(spec):
+    return spec is not None and ("value" in spec or "values" in spec)
+
+
+def spec_permits(spec, x):
+    """does this specification permit the value x to leave?  no value restriction: everything"""
+    if not spec_restricts(spec):
+        return True
+    if "value" in spec and x == spec["value"]:
+        return True
+    return "values" in spec and isinstance(spec["values"], (list, tuple)) and x in spec["values"]
+
+
+def value_permitted(specs, v):
+    """specs: the specifications (None = no restriction) of the sources that permit the attribute at all.  The value v that
+    left is within them when, as a whole, it is permitted by one of them, or - a list - when every single element is"""
+    if any(spec_permits(s, v) for s in specs):
+        return True
+    if isinstance(v, list):
+        return all(any(spec_permits(s, x) for s in specs) for x in v)
+    return False
+
+
+def mv_relation(spec, val):
+    """coverage label: how the stored value relates to a restricting specification"""
+    if not spec_restricts(spec):
+        return "unrestricted"
+    if spec_permits(spec, val):
+        return "whole-permitted"
+    if not isinstance(val, list):
+        return "scalar-not-permitted"
+    ok = [spec_permits(spec, x) for x in val]
+    if not val:
+        return "empty-list"
+    return "all-elements-permitted" if all(ok) else "mixed-permitted-and-not" if any(ok) else "no-element-permitted"
+
+
+def users_value_ok(released, stored):
+    """what is shown of an attribute is the user's own: the stored value, or - multi-valued - values out of the stored list"""
+    if released == stored:
+        return True
+    return isinstance(released, list) and isinstance(stored, list) and all(x in stored for x in released)
+
+
+def plain(x):
+    """Message / list-like -> plain JSON-like value"""
+    return json.loads(json.dumps(x, default=lambda o: o.to_dict() if hasattr(o, "to_dict") else list(o)))
+
+
+def multi_valued_unit(ctx, rng, n):
+    """ClaimsInterface.get_claims_from_request + get_user_claims on user records with multi-valued attributes, specifications
+    from the claims parameter, dict-form base_claims and dict-form always_add_claims.  Oracle: every released value is the
+    user's and is permitted (value by value) by one of the sources that name the attribute.  Correspondence: chk_claims
+    (restriction and released claims) and chk_mv (user_claims = the shape-wise release_attr = what the library released;
+    values_within of the specification in force)."""
+    from idpyoidc.server.scopes import SCOPE2CLAIMS
+    server = srv.make_server(clients=("client_1",))
+    cctx = server.context
+    ci = cctx.claims_interface
+    cctx.userinfo.db = copy.deepcopy(MV_USERS)
+    names = MV_ATTRS + ["nickname", "email", "nonexistent"]
+    cases, mv_cases = [], []
+    for i in range(n):
+        point = rng.choice(POINTS)
+        mod = module_of(server, point)
+        saved = dict(mod.kwargs)
+        uid = rng.choice(list(MV_USERS))
+        uvals = MV_USERS[uid]
+        labels = []
+
+        def spec_for(c, source):
+            s, form = gen_spec_mv(rng, uvals.get(c, "x"))
+            labels.append((c, source, form, s))
+            return s
+        try:
+            for k in ("base_claims", "always_add_claims", "add_claims_by_scope", "enable_claims_per_client"):
+                mod.kwargs.pop(k, None)
+            base = {c: spec_for(c, "base_claims") for c in rng.sample(names, rng.randint(0, 3))}
+            r = rng.random()
+            always = None if r < 0.3 else rng.sample(names, rng.randint(1, 2)) if r < 0.5 else \
+                {c: spec_for(c, "always_add_claims") for c in rng.sample(names, rng.randint(1, 3))}
+            by_scope = rng.random() < 0.5
+            if base or rng.random() < 0.5:
+                mod.kwargs["base_claims"] = base
+            if always is not None:
+                mod.kwargs["always_add_claims"] = always
+            mod.kwargs["add_claims_by_scope"] = by_scope
+            mod.kwargs["enable_claims_per_client"] = False
+            crec = cctx.cdb["client_1"]
+            for k in ("add_claims", "allowed_scopes", "scopes_to_claims"):
+                crec.pop(k, None)
+            cmap = None
+            if rng.random() < 0.5:
+                cmap = copy.deepcopy(MV_SCOPE_MAP)
+                crec["scopes_to_claims"] = cmap
+            scopes = rng.sample(["openid", "email", "profile", "address", "unknown"], rng.randint(0, 3))
+            req = {c: spec_for(c, "claims-parameter") for c in rng.sample(names, rng.randint(0, 4))}
+            auth_req = {"client_id": "client_1", "scope": scopes}
+            if req or rng.random() < 0.3:
+                auth_req["claims"] = {point: req}
+            restriction = ci.get_claims_from_request(auth_req, point, scopes=scopes or None, client_id="client_1", secondary_identifier="")
+            released = ci.get_user_claims(uid, restriction, "client_1")
+            rec = {"multi_valued": "unit", "point": point, "scopes": scopes, "request_claims": req, "restriction": restriction,
+                   "released": released, "module": {"base": base, "always": always, "by_scope": by_scope}, "client_scope_map": bool(cmap),
+                   "user": uid, "user_record": uvals}
+            ctx.case_seen(rec, bool(released))
+            for c, source, form, s in labels:
+                if c in uvals:
+                    ctx.count("mv-unit:%s:%s:%s" % (source, mv_shape(uvals[c]), form))
+                    ctx.count("mv-unit-relation:%s" % mv_relation(s, uvals[c]))
+            # ---- oracle: the sources that name the attribute, each with its specification
+            specs = {}
+            for k, s in base.items():
+                specs.setdefault(k, []).append(s)
+            if isinstance(always, dict):
+                for k, s in always.items():
+                    specs.setdefault(k, []).append(s)
+            else:
+                for k in always or []:
+                    specs.setdefault(k, []).append(None)
+            the_map = cmap or SCOPE2CLAIMS
+            for s_ in scopes:
+                if s_ in SCOPE2CLAIMS:          # (no allowed_scopes on the client: the provider's scopes)
+                    for k in the_map.get(s_, []):
+                        specs.setdefault(k, []).append(None)
+            for k, s in req.items():
+                specs.setdefault(k, []).append(s)
+            for k, v in released.items():
+                if k not in specs:
+                    ctx.violation("released-beyond-bound", "%s released %r which no source permits (%r)" % (point, k, sorted(specs)), rec)
+                    continue
+                if v is None or k not in uvals or not users_value_ok(v, uvals[k]):
+                    ctx.violation("released-not-users-value", "released %s=%r, user has %r" % (k, v, uvals.get(k)), rec)
+                if not value_permitted(specs[k], v):
+                    ctx.violation("released-value-not-permitted",
+                                  "%s released %s=%r; the specifications that permit %s are %r: not every value that left is a permitted one"
+                                  % (point, k, v, k, specs[k]), rec)
+                else:
+                    ctx.count("mv-unit-released:%s:%s" % (mv_shape(v), "restricted" if all(spec_restricts(s) for s in specs[k]) else "unrestricted"))
+            # ---- model cases
+            always_t = "None" if always is None else ("(Some (AList %s))" % coq_list([coq_str(x) for x in always], "pystr") if isinstance(always, list)
+                                                      else "(Some (ADict %s))" % coq_restriction(always))
+            mod_t = "(mkModule %s %s %s false)" % (coq_restriction(mod.kwargs.get("base_claims", {})), coq_bool(by_scope), always_t)
+            cl_t = "(Some (mkClient None %s None %s))" % (coq_list([], "(pystr * list pystr)"), "None" if cmap is None else "(Some %s)" % coq_scope_map(cmap))
+            ui_t = coq_list(["(%s, %s)" % (coq_str(k), coq_pyval(v)) for k, v in uvals.items()], "(pystr * pyval)")
+            rel_t = coq_list(["(%s, %s)" % (coq_str(k), coq_pyval(v)) for k, v in released.items()], "(pystr * pyval)")
+            cases.append(("(%s, %s, %s, %s, %s, %s, %s, %s, %s, %s)" % (
+                coq_scope_map(SCOPE2CLAIMS), mod_t, cl_t, coq_str(point), coq_str(""), coq_list([coq_str(x) for x in scopes], "pystr"),
+                coq_restriction(req), ui_t, coq_restriction(restriction), rel_t), rec))
+            mv_cases.append(("(%s, %s, %s)" % (coq_restriction(restriction), ui_t, rel_t), rec))
+        finally:
+            mod.kwargs.clear()
+            mod.kwargs.update(saved)
+    ctx.coq_check_cases(["Lib.Base", "Lib.PyStr", "Model.Claims"], "claims_case", "chk_claims", cases, shard=120, label="mv_claims", diag="diag_claims")
+    ctx.coq_check_cases(["Lib.Base", "Lib.PyStr", "Model.Claims", "Model.ClaimsMV"], "mv_case", "chk_mv", mv_cases, shard=120, label="mv_release_attr",
+                        diag="diag_mv")
+
+
+def release_specs(server, point, client, token_scope, claims_param):
+    """release_bound with the specifications: attribute -> the specifications (None = no restriction) of the sources that
+    permit it at this release point for a token with that scope"""
+    mod = module_of(server, point)
+    cctx = server.context
+    crec = cctx.cdb[client]
+    out = {}
+    for k, s in (mod.kwargs.get("base_claims") or {}).items():
+        out.setdefault(k, []).append(s)
+    by_scope = bool(mod.kwargs.get("add_claims_by_scope"))
+    if mod.kwargs.get("enable_claims_per_client"):
+        add = crec.get("add_claims") or {}
+        for k in (add.get("always") or {}).get(point) or []:
+            out.setdefault(k, []).append(None)
+        if (add.get("by_scope") or {}).get(point) is not None:
+            by_scope = bool(add["by_scope"][point])
+    else:
+        always = mod.kwargs.get("always_add_claims") or []
+        for k in always:
+            out.setdefault(k, []).append(always[k] if isinstance(always, dict) else None)
+    if by_scope:
+        the_map = crec.get("scopes_to_claims") or cctx.scopes_handler._scopes_to_claims
+        allowed = crec.get("allowed_scopes")
+        if allowed is None:
+            allowed = list(cctx.scopes_handler._scopes_to_claims.keys())
+        for sc in token_scope:
+            if sc in allowed:
+                for k in the_map.get(sc, []):
+                    out.setdefault(k, []).append(None)
+    for k, s in ((claims_param or {}).get(point) or {}).items():
+        out.setdefault(k, []).append(s)
+    return out
+
+
+def multi_valued_release_points(ctx, rng, n):
+    """Real flows for users with multi-valued attributes on providers whose release points carry value restrictions
+    (dict-form base_claims, dict-form always_add_claims) and whose authorization requests carry a claims parameter with
+    value restrictions for userinfo and / or id_token.  Every release point the check visits: the ID Token of the
+    authorization response (response types with id_token), the access token of the authorization response (userinfo,
+    introspection, JWT), the token endpoint's ID Token and access token after code redemption and after a refresh.
+    Oracle: names within release_bound / authz_idt_bound; every value that left is the user's and is permitted, value by
+    value, by one of the specifications of the sources that permit the attribute.  Correspondence: release_tok /
+    release_authz_idt (as a set)."""
+    idt_cases, tok_cases = [], []
+    names = MV_ATTRS + ["nickname", "email"]
+
+    def draw_spec(k, u=None):
+        u = u or rng.choice([x for x in MV_USERS if k in MV_USERS[x]])
+        return gen_spec_mv(rng, MV_USERS[u].get(k, "x"))[0]
+    for i in range(n):
+        jwt = i % 2 == 0
+        over = {c: ({"scopes_to_claims": copy.deepcopy(MV_SCOPE_MAP)} if rng.random() < 0.4 else {}) for c in sess.CLIENTS}
+        rs = sess.RealSession(oidc=True, jwt_access=jwt, client_over=copy.deepcopy(over))
+        try:
+            rs.server.context.userinfo.db.update(copy.deepcopy(MV_USERS))
+            cfg = {}
+            for point in POINTS:
+                mod = module_of(rs.server, point)
+                mod.kwargs["add_claims_by_scope"] = rng.random() < 0.6
+                mod.kwargs["enable_claims_per_client"] = False
+                r = rng.random()
+                mod.kwargs["always_add_claims"] = [] if r < 0.25 else rng.sample(names, rng.randint(1, 2)) if r < 0.45 else \
+                    {k: draw_spec(k) for k in rng.sample(names, rng.randint(1, 3))}
+                if rng.random() < 0.7:
+                    mod.kwargs["base_claims"] = {k: draw_spec(k) for k in rng.sample(names, rng.randint(1, 3))}
+                cfg[point] = {k: copy.deepcopy(mod.kwargs.get(k)) for k in ("add_claims_by_scope", "always_add_claims", "enable_claims_per_client", "base_claims")}
+            ui_ep, ie = rs.ep["userinfo"], rs.ep["introspection"]
+            rts = ["code", "code id_token", "id_token", "id_token token", "code id_token token", "code"]
+            rng.shuffle(rts)
+            hist = []
+            for rt in rts:
+                words = rt.split()
+                rng.shuffle(words)
+                c = rng.choice(sess.CLIENTS)
+                u = rng.choice(list(MV_USERS))
+                crec = rs.ctx.cdb[c]
+                pool = [x for x in crec.get("allowed_scopes", sess.SCOPES_KNOWN) if x not in ("openid", "offline_access")]
+                gscope = ["openid"] + rng.sample(pool, min(len(pool), rng.randint(0, 3)))
+                if "code" in words and rng.random() < 0.7:
+                    gscope.append("offline_access")
+                rng.shuffle(gscope)
+                req_claims = {}
+                for p in rng.sample(["userinfo", "id_token"], rng.randint(1, 2)):
+                    req_claims[p] = {k: draw_spec(k, u) for k in rng.sample(names, rng.randint(2, 5))}
+                o = rs.run(("authz", u, c, gscope, " ".join(words), {"claims": copy.deepcopy(req_claims)}))
+                if o[0] != "ok" or not o[1]:
+                    ctx.count("mv-e2e:%s:refused" % rt)
+                    ctx.notes.append("multi_valued_release_points: authorization refused %r (%s)" % (o, rt))
+                    continue
+                slots = {}
+                for t in o[1]:
+                    slots[rs.tokobj[t].token_class] = t
+                uvals = MV_USERS[u]
+                uv_model = {k: v for k, v in uvals.items() if v != []}      # (a JWT access token omits empty-valued claims: nothing leaves either way)
+                base_rec = {"multi_valued": "release-points", "response_type": " ".join(words), "user": u, "user_record": uvals, "client": c,
+                            "scope_asked_for": gscope, "claims_request": req_claims, "config": cfg, "jwt_access_token": jwt,
+                            "client_scope_map": crec.get("scopes_to_claims"), "flows_before": list(hist)}
+                hist.append([" ".join(words), c, u])
+                for p, d in req_claims.items():
+                    for k, s in d.items():
+                        if k in uvals:
+                            ctx.count("mv-e2e-claims-parameter:%s:%s" % (p, mv_relation(s, uvals[k])))
+                for p in POINTS:
+                    for src in ("base_claims", "always_add_claims"):
+                        d = cfg[p].get(src)
+                        if isinstance(d, dict):
+                            for k, s in d.items():
+                                if k in uvals:
+                                    ctx.count("mv-e2e-%s:%s:%s" % (src, p, mv_relation(s, uvals[k])))
+
+                def judge(point, payload, specs, bound, where, rec):
+                    payload = plain(payload)
+                    attrs = {k for k in payload if k in uvals}
+                    ctx.count("mv-e2e-view:%s:%s" % (where, point))
+                    if attrs - bound:
+                        ctx.violation("beyond-presented-token-scope", "%s (%s, %s flow) contains %r beyond the bound %r"
+                                      % (point, where, rt, sorted(attrs - bound), sorted(bound)), rec)
+                    for k in attrs:
+                        v = payload[k]
+                        if not users_value_ok(v, uvals[k]):
+                            ctx.violation("released-not-users-value", "%s released %s=%r, user has %r" % (point, k, v, uvals[k]), rec)
+                        if not value_permitted(specs.get(k, [None]), v):
+                            ctx.violation("released-value-not-permitted",
+                                          "%s (%s, %s flow) shows %s=%r; the specifications that permit %s there are %r: not every value that left is a permitted one"
+                                          % (point, where, rt, k, v, k, specs.get(k)), rec)
+                        else:
+                            ctx.count("mv-e2e-released:%s:%s:%s" % (point, mv_shape(v), "restricted" if all(spec_restricts(s) for s in specs.get(k, [None])) else "unrestricted"))
+                    return payload
+
+                def access_token_views(at, how):
+                    tscope = list(rs.tokobj[at].scope)
+                    gs = list(rs.grants[rs.tok_grant[at]][1].scope)
+                    views = {}
+                    try:
+                        r = ui_ep.process_request(ui_ep.parse_request({}, http_info={"headers": {"authorization": "Bearer " + rs.tokens[at]}}))
+                        ra = r.get("response_args", r) if isinstance(r, dict) else r
+                        if "error" not in ra:
+                            views["userinfo"] = dict(ra)
+                    except Exception as e:
+                        ctx.count("mv-e2e:userinfo-crash:%s" % type(e).__name__)
+                    try:
+                        ir = dict(ie.process_request(ie.parse_request(rs._token_req(c, {"token": rs.tokens[at]})))["response_args"])
+                        if ir.get("active"):
+                            views["introspection"] = ir
+                    except Exception as e:
+                        ctx.count("mv-e2e:introspection-crash:%s" % type(e).__name__)
+                    if jwt:
+                        views["access_token"] = jwt_payload(rs.tokens[at])
+                    rec = dict(base_rec, how=how, token_scope=tscope, grant_scope=gs,
+                               released={k: {a: plain(v[a]) for a in v if a in uvals} for k, v in views.items()})
+                    ctx.case_seen(rec, any(rec["released"].values()))
+                    for point, payload in views.items():
+                        payload = judge(point, payload, release_specs(rs.server, point, c, tscope, req_claims),
+                                        release_bound(rs.server, point, c, tscope, req_claims), how, dict(rec, point=point))
+                        term = "(%s, %s, %s, (Some %s), %s, %s, %s, %s)" % (
+                            coq_release_config(rs.server, point, c), coq_str(point), coq_str(""),
+                            coq_list([coq_str(x) for x in tscope], "pystr"), coq_list([coq_str(x) for x in gs], "pystr"),
+                            coq_restriction(req_claims.get(point) or {}),
+                            coq_list(["(%s, %s)" % (coq_str(k), coq_pyval(v)) for k, v in uv_model.items()], "(pystr * pyval)"),
+                            coq_list(["(%s, %s)" % (coq_str(k), coq_pyval(payload[k])) for k in payload if k in uv_model], "(pystr * pyval)"))
+                        tok_cases.append((term, dict(rec, point=point)))
+
+                def id_token_view(idt, how, rt_words):
+                    payload = jwt_payload(rs.tokens[idt])
+                    tscope = list(rs.tokobj[idt].scope)
+                    gs = list(rs.grants[rs.tok_grant[idt]][1].scope)
+                    alone = rt_words is not None and set(rt_words) == {"id_token"}
+                    rec = dict(base_rec, how=how, point="id_token", token_scope=tscope, grant_scope=gs,
+                               released={"id_token": {a: payload[a] for a in payload if a in uvals}},
+                               id_token_minted_by="authorization endpoint" if rt_words is not None else "token endpoint",
+                               release_point=["id_token", "userinfo"] if alone else ["id_token"])
+                    ctx.case_seen(rec, bool(rec["released"]["id_token"]))
+                    specs = release_specs(rs.server, "id_token", c, tscope, req_claims)
+                    if alone:
+                        for k, l in release_specs(rs.server, "userinfo", c, tscope, req_claims).items():
+                            specs.setdefault(k, []).extend(l)
+                        for k in client_userinfo_entries(rs.server, c, tscope):
+                            specs.setdefault(k, []).append(None)
+                    payload = judge("id_token", payload, specs, authz_idt_bound(rs.server, rt_words if rt_words is not None else ["code"], c, tscope, req_claims),
+                                    how, rec)
+                    term = "(%s, %s, (Some %s), %s, %s, %s, %s)" % (
+                        coq_release_config(rs.server, "id_token", c),
+                        coq_list([coq_str(x) for x in (rt_words if rt_words is not None else ["code"])], "pystr"),
+                        coq_list([coq_str(x) for x in tscope], "pystr"), coq_list([coq_str(x) for x in gs], "pystr"),
+                        coq_restriction(req_claims.get("id_token") or {}),
+                        coq_list(["(%s, %s)" % (coq_str(k), coq_pyval(v)) for k, v in uv_model.items()], "(pystr * pyval)"),
+                        coq_list(["(%s, %s)" % (coq_str(k), coq_pyval(payload[k])) for k in payload if k in uv_model], "(pystr * pyval)"))
+                    idt_cases.append((term, rec))
+
+                ctx.count("mv-e2e:%s" % rt)
+                if "id_token" in slots:
+                    id_token_view(slots["id_token"], "authorization-response", words)
+                if "access_token" in slots:
+                    access_token_views(slots["access_token"], "authorization-response")
+                if "authorization_code" in slots:
+                    rs.run(("tparse", c, ("tok", slots["authorization_code"]), "same"))
+                    p0 = rs.run(("proc", len(rs.parsed) - 1, None))
+                    if p0[0] != "ok":
+                        ctx.count("mv-e2e:%s:code-refused" % rt)
+                        continue
+                    if p0[1].get("id_token") is not None and p0[1]["id_token"] >= 0:
+                        id_token_view(p0[1]["id_token"], "code-redeemed", None)
+                    if "access_token" in p0[1]:
+                        access_token_views(p0[1]["access_token"], "code-redeemed")
+                    if "refresh_token" in p0[1]:
+                        r = rs.run(("rparse", c, ("tok", p0[1]["refresh_token"]), None))
+                        p1 = rs.run(("proc", len(rs.parsed) - 1, None)) if r[0] == "ok" else r
+                        if p1[0] != "ok" or not isinstance(p1[1], dict):
+                            ctx.count("mv-e2e:%s:refresh-refused" % rt)
+                            continue
+                        if p1[1].get("id_token") is not None and p1[1]["id_token"] >= 0:
+                            id_token_view(p1[1]["id_token"], "refreshed", None)
+                        if "access_token" in p1[1]:
+                            access_token_views(p1[1]["access_token"], "refreshed")
+        finally:
+            rs.close()
+    ctx.coq_check_cases(["Lib.Base", "Lib.PyStr", "Model.Claims"], "authz_idt_case", "chk_authz_idt", idt_cases, shard=120, label="mv_authz_idt",
+                        diag="diag_authz_idt")
+    ctx.coq_check_cases(["Lib.Base", "Lib.PyStr", "Model.Claims"], "release_tok_case", "chk_release_tok", tok_cases, shard=120, label="mv_release_tok",
+                        diag="diag_release_tok")
+
+
 def run(ctx):
     dead_token_release(ctx, ctx.rng, 10 if ctx.quick else 300)
     order_independence(ctx, ctx.rng, 6 if ctx.quick else 24)
@@ -1090,6 +1552,8 @@ def run(ctx):
     unit_cases(ctx, ctx.rng, 240 if ctx.quick else 6000, tok=True)
     downscoped_tokens(ctx, ctx.rng, 6 if ctx.quick else 60)
     authz_endpoint_id_tokens(ctx, ctx.rng, 8 if ctx.quick else 80)
+    multi_valued_unit(ctx, ctx.rng, 300 if ctx.quick else 8000)
+    multi_valued_release_points(ctx, ctx.rng, 6 if ctx.quick else 60)
 
 
 def replay(ctx, rp):
